@@ -239,6 +239,19 @@ def dro_case(draw, polyhedral=True, allow_kl=False, max_scen=4, allow_lift=True,
             grp = sorted(draw(st.sets(st.sampled_from(remaining), min_size=1, max_size=len(remaining))))
             calls.append(grp)
             remaining = [s for s in remaining if s not in grp]
+    ny2 = 0
+    calls2 = []
+    if ny and S > 1 and draw(st.integers(0, 2)) == 0:
+        # a second adaptive decision array with its own event partition (the last ny2 entries of y)
+        ny2 = draw(st.integers(1, 2))
+        ny += ny2
+        rem2 = list(range(S))
+        for _ in range(draw(st.integers(0, S))):
+            if not rem2:
+                break
+            grp = sorted(draw(st.sets(st.sampled_from(rem2), min_size=1, max_size=len(rem2))))
+            calls2.append(grp)
+            rem2 = [s for s in rem2 if s not in grp]
     ymask = [[0] * nw for _ in range(ny)]
     if ny and affine_ok and draw(st.integers(0, 2)) == 0:
         ymask = [[draw(st.integers(0, 1)) for _ in range(nw)] for _ in range(ny)]
@@ -269,32 +282,38 @@ def dro_case(draw, polyhedral=True, allow_kl=False, max_scen=4, allow_lift=True,
     if not any(any(pc['d0']) or any(pc['e']) for pc in pieces):
         pieces[0]['d0'][0] = 1.0
     case = {'S': S, 'labels': labels, 'nz': nz, 'nu': nu, 'supports': supports, 'prob': prob, 'exps': exps,
-            'nx': nx, 'ny': ny, 'adapt_calls': calls, 'ymask': ymask, 'xlo': xlo, 'xhi': xhi, 'cons': cons,
+            'nx': nx, 'ny': ny, 'ny2': ny2, 'adapt_calls': calls, 'adapt_calls2': calls2, 'ymask': ymask,
+            'xpos': draw(st.integers(0, 2)), 'xlo': xlo, 'xhi': xhi, 'cons': cons,
             'obj': {'kind': okind, 'pieces': pieces}, 'witness': {'x': xbar, 'y': ybar},
             'supp_style': draw(st.sampled_from(['each', 'grouped']))}
     fill_constants(case)
     return case
 
 
-def events_of(case):
-    """partition of scenarios produced by the adapt() calls, in RSOME's order (remaining first, then each call)"""
+def events_of(case, group=0):
+    """partition of scenarios produced by the adapt() calls of a group, in RSOME's order (remaining first, then each call)"""
     S = case['S']
     rem = list(range(S))
     ev = []
-    for grp in case['adapt_calls']:
+    for grp in (case['adapt_calls'] if group == 0 else case.get('adapt_calls2', [])):
         rem = [s for s in rem if s not in grp]
         ev.append(list(grp))
     out = ([rem] if rem else []) + ev
     return out
 
 
-def event_index(case):
-    ev = events_of(case)
+def event_index(case, group=0):
+    ev = events_of(case, group)
     idx = {}
     for k, grp in enumerate(ev):
         for s in grp:
             idx[s] = k
     return idx, ev
+
+
+def group_of(case, k):
+    """adaptive group of y entry k (the last ny2 entries form the second group)"""
+    return 1 if k >= case['ny'] - case.get('ny2', 0) else 0
 
 
 def fill_constants(case):
@@ -343,19 +362,33 @@ def build(case):
     lab = scen_labels(case)
     m = dro.Model(S) if case['labels'] == 'int' else dro.Model(lab)
     nx, ny, nz, nu = case['nx'], case['ny'], case['nz'], case['nu']
-    x = m.dvar(nx)
-    y = m.dvar(ny) if ny else None
+    ny2 = case.get('ny2', 0)
+    ny1 = ny - ny2
+    xpos = case.get('xpos', 0)
+    # declaration order of the decision arrays varies (x first / between / last)
+    x = m.dvar(nx) if xpos == 0 else None
+    ya = m.dvar(ny1) if ny1 else None
+    if xpos == 1:
+        x = m.dvar(nx)
+    yb = m.dvar(ny2) if ny2 else None
+    if x is None:
+        x = m.dvar(nx)
     z = m.rvar(nz)
     u = m.rvar() if nu else None
     fset = m.ambiguity()
     if ny:
-        for grp in case['adapt_calls']:
-            if len(grp) == 1 and grp[0] % 2 == 0:
-                y.adapt(lab[grp[0]])
-            else:
-                y.adapt([lab[s] for s in grp])
+        import rsome as rso_
+        for yv, calls in ((ya, case['adapt_calls']), (yb, case.get('adapt_calls2', []))):
+            if yv is None:
+                continue
+            for grp in calls:
+                if len(grp) == 1 and grp[0] % 2 == 0:
+                    yv.adapt(lab[grp[0]])
+                else:
+                    yv.adapt([lab[s] for s in grp])
         mask = np.array(case['ymask']).reshape(ny, nz + nu)
         for k in range(ny):
+            yk = ya[k] if k < ny1 else yb[k - ny1]
             for (rv, off, n) in ((z, 0, nz), (u, nz, nu)):
                 if rv is None:
                     continue
@@ -363,13 +396,25 @@ def build(case):
                 if not cols.any():
                     continue
                 if rv is u:
-                    y[k].adapt(u)
+                    yk.adapt(u)
                 elif cols.all():
-                    y[k].adapt(z)
+                    yk.adapt(z)
                 else:
                     for j in range(n):
                         if cols[j]:
-                            y[k].adapt(z[j])
+                            yk.adapt(z[j])
+
+    def ydot(coef):
+        """coef . y for the two adaptive arrays presented as one vector of ny entries"""
+        coef = np.asarray(coef, dtype=float)
+        e = None
+        if ny1 and np.any(coef[:ny1]):
+            e = coef[:ny1] @ ya
+        if ny2 and np.any(coef[ny1:]):
+            t = coef[ny1:] @ yb
+            e = t if e is None else e + t
+        return e if e is not None else 0.0
+    y = ydot if ny else None
     # supports
     done = set()
     for s in range(S):
@@ -427,7 +472,7 @@ def build(case):
     def piece_expr(pc):
         e = np.array(pc['d0']) @ x + pc['f0']
         if ny and any(pc['e']):
-            e = e + np.array(pc['e']) @ y
+            e = e + ydot(pc['e'])
         f = np.array(pc['f'])
         if np.any(f[:nz]):
             e = e + f[:nz] @ z
@@ -446,14 +491,14 @@ def build(case):
     for row in case['cons']:
         e = np.array(row['a0']) @ x + row['c0']
         if ny and any(row['b']):
-            e = e + np.array(row['b']) @ y
+            e = e + ydot(row['b'])
         c = np.array(row['c'])
         if np.any(c[:nz]):
             e = e + (c[:nz] @ z if row['style'] != 1 else (c[:nz] * z).sum())
         if nu and c[nz]:
             e = e + float(c[nz]) * u
         m.st(e <= 0 if row['sense'] == 'le' else e >= 0)
-    return m, {'x': x, 'y': y, 'z': z, 'u': u, 'fset': fset, 'labels': lab}
+    return m, {'x': x, 'y': y, 'ya': ya if ny else None, 'yb': yb if ny else None, 'z': z, 'u': u, 'fset': fset, 'labels': lab}
 
 
 def pick_solver(case):
@@ -481,23 +526,28 @@ def read_solution(case, h):
     Y = np.zeros((S, ny, nz + nu))
     raw = {}
     if ny:
-        g = h['y'].get()
-        raw['y'] = g
-        if isinstance(g, pd.Series):
-            for s in range(S):
-                y0[s] = np.array(g[lab[s]], dtype=float).reshape(ny)
-        else:
-            y0[:] = np.array(g, dtype=float).reshape(ny)
+        ny2 = case.get('ny2', 0)
+        ny1 = ny - ny2
         mask = np.array(case['ymask']).reshape(ny, nz + nu)
-        if mask.any():
-            for (rv, off, n) in ((h['z'], 0, nz), (h['u'], nz, nu)):
-                if rv is None:
-                    continue
-                g = h['y'].get(rv)
-                raw['Y%d' % off] = g
+        for (yv, lo_, hi_, tag) in ((h['ya'], 0, ny1, 'a'), (h['yb'], ny1, ny, 'b')):
+            if yv is None or hi_ == lo_:
+                continue
+            g = yv.get()
+            raw['y' + tag] = g
+            if isinstance(g, pd.Series):
                 for s in range(S):
-                    gs = g[lab[s]] if isinstance(g, pd.Series) else g
-                    Y[s][:, off:off + n] = np.array(gs, dtype=float).reshape(ny, n)
+                    y0[s, lo_:hi_] = np.array(g[lab[s]], dtype=float).reshape(hi_ - lo_)
+            else:
+                y0[:, lo_:hi_] = np.array(g, dtype=float).reshape(hi_ - lo_)
+            if mask[lo_:hi_].any():
+                for (rv, off, n) in ((h['z'], 0, nz), (h['u'], nz, nu)):
+                    if rv is None:
+                        continue
+                    g = yv.get(rv)
+                    raw['Y%s%d' % (tag, off)] = g
+                    for s in range(S):
+                        gs = g[lab[s]] if isinstance(g, pd.Series) else g
+                        Y[s][lo_:hi_, off:off + n] = np.array(gs, dtype=float).reshape(hi_ - lo_, n)
         Y = np.where(np.isnan(Y), 0.0, Y)
     return x, y0, Y, raw
 
@@ -688,25 +738,29 @@ def reference_optimum(case, max_rounds=60, tol=1e-7):
         if V is None:
             return None, 'support not enumerable'
         atoms.append(V)
-    idx, ev = event_index(case)
-    nE = len(ev) if ny else 0
     mask = np.array(case['ymask']).reshape(ny, nw).astype(bool) if ny else np.zeros((0, nw), dtype=bool)
-    midx = [(k, j) for k in range(ny) for j in range(nw) if mask[k, j]]
-    per_event = ny + len(midx)
-    nv = nx + nE * per_event + 1
+    gidx = [event_index(case, 0), event_index(case, 1)]
+    # layout: for every y entry k and every event of its group: one constant + one coefficient per declared dependency
+    ent = []
+    pos = nx
+    for k in range(ny):
+        idx_k, ev_k = gidx[group_of(case, k)]
+        deps = [j for j in range(nw) if mask[k, j]]
+        ent.append((pos, idx_k, deps))
+        pos += len(ev_k) * (1 + len(deps))
+    nv = pos + 1
     T = nv - 1
     sign = 1.0 if case['obj']['kind'] == 'minsup' else -1.0
 
     def ycoef(s, w):
         """matrix R (ny x nv) with y_s(w) = R v"""
         R = np.zeros((ny, nv))
-        if not ny:
-            return R
-        base = nx + idx[s] * per_event
         for k in range(ny):
-            R[k, base + k] = 1.0
-        for q, (k, j) in enumerate(midx):
-            R[k, base + ny + q] = w[j]
+            base, idx_k, deps = ent[k]
+            b0 = base + idx_k[s] * (1 + len(deps))
+            R[k, b0] = 1.0
+            for q, j in enumerate(deps):
+                R[k, b0 + 1 + q] = w[j]
         return R
 
     def unpack(v):
@@ -714,11 +768,12 @@ def reference_optimum(case, max_rounds=60, tol=1e-7):
         y0 = np.zeros((S, ny))
         Y = np.zeros((S, ny, nw))
         for s in range(S):
-            if ny:
-                base = nx + idx[s] * per_event
-                y0[s] = v[base:base + ny]
-                for q, (k, j) in enumerate(midx):
-                    Y[s, k, j] = v[base + ny + q]
+            for k in range(ny):
+                base, idx_k, deps = ent[k]
+                b0 = base + idx_k[s] * (1 + len(deps))
+                y0[s, k] = v[b0]
+                for q, j in enumerate(deps):
+                    Y[s, k, j] = v[b0 + 1 + q]
         return x, y0, Y
     A_ub, b_ub = [], []
     # robust rows at every vertex of every scenario (exact for polytopes)
@@ -732,7 +787,7 @@ def reference_optimum(case, max_rounds=60, tol=1e-7):
                     coef += np.array(row['b']) @ ycoef(s, w)
                 const = float(np.array(row['c']) @ w + row['c0'])
                 A_ub.append(sg * coef); b_ub.append(-sg * const)
-    bounds = [(case['xlo'][i], case['xhi'][i]) for i in range(nx)] + [(-1e4, 1e4)] * (nE * per_event) + [(-1e7, 1e7)]
+    bounds = [(case['xlo'][i], case['xhi'][i]) for i in range(nx)] + [(-1e4, 1e4)] * (nv - 1 - nx) + [(-1e7, 1e7)]
     cost = np.zeros(nv)
     cost[T] = 1.0
 
@@ -756,8 +811,10 @@ def reference_optimum(case, max_rounds=60, tol=1e-7):
         else:
             v = np.zeros(nv)
             v[:nx] = case['witness']['x']
-            for e in range(nE):
-                v[nx + e * per_event: nx + e * per_event + ny] = case['witness']['y']
+            for k in range(ny):
+                base, idx_k, deps = ent[k]
+                for e_ in set(idx_k.values()):
+                    v[base + e_ * (1 + len(deps))] = case['witness']['y'][k]
             v[T] = -1e7
         x, y0, Y = unpack(v)
         vals = [[integrand(case, x, y0[s], Y[s], w) for w in atoms[s]] for s in range(S)]
